@@ -44,14 +44,14 @@ ASSUMPTIONS = ["the samplers take all randomness from numpy.random.<fn> looked u
                "the reference model independently of cuqi (up to an additive constant)",
                "ULA is judged only for its documented proposal, absence of an accept step and NaN handling"]
 REQUIRED_COUNTERS = {
-    "quick": {"proposal_maps_identified": 1200, "documented_proposal_checked": 550, "threshold_accept_side": 2000,
-              "threshold_reject_side": 900, "reject_state_unchanged_checked": 800, "accept_cache_checked": 1600,
-              "nan_inf_never_accepted_checked": 220, "reverse_direction_checked": 700, "reload_equivalence_checked": 100,
-              "chain_transitions_checked": 6000, "stationarity_tests": 8},
-    "thorough": {"proposal_maps_identified": 7000, "documented_proposal_checked": 3500, "threshold_accept_side": 12000,
-                 "threshold_reject_side": 6000, "reject_state_unchanged_checked": 5000, "accept_cache_checked": 10000,
-                 "nan_inf_never_accepted_checked": 1400, "reverse_direction_checked": 4500, "reload_equivalence_checked": 600,
-                 "chain_transitions_checked": 50000, "stationarity_tests": 40}}
+    "quick": {"proposal_maps_identified": 2500, "documented_proposal_checked": 1200, "threshold_accept_side": 4400,
+              "threshold_reject_side": 2000, "reject_state_unchanged_checked": 1700, "accept_cache_checked": 3500,
+              "nan_inf_never_accepted_checked": 500, "reverse_direction_checked": 1600, "reload_equivalence_checked": 240,
+              "chain_transitions_checked": 10000, "stationarity_tests": 12},
+    "thorough": {"proposal_maps_identified": 18000, "documented_proposal_checked": 8000, "threshold_accept_side": 30000,
+                 "threshold_reject_side": 14000, "reject_state_unchanged_checked": 12000, "accept_cache_checked": 25000,
+                 "nan_inf_never_accepted_checked": 3500, "reverse_direction_checked": 11000, "reload_equivalence_checked": 1600,
+                 "chain_transitions_checked": 130000, "stationarity_tests": 40}}
 BUDGET_S = {"quick": 240.0, "thorough": 2400.0}
 
 LEGACY_NAME = {"MH": "MH", "CWMH": "CWMH", "PCN": "pCN", "MALA": "MALA", "ULA": "ULA"}
@@ -65,7 +65,7 @@ TS = min(1.0, float(os.environ.get("VERIF_C02_TOLSCALE", "1")))    # development
 # =========================================================================== case generation
 
 def _thr_cases(tier, seed):
-    n_main, n_ula = (150, 30) if tier == "quick" else (1000, 200)
+    n_main, n_ula = (300, 50) if tier == "quick" else (2500, 400)
     out = []
     for name in ("MH", "CWMH", "PCN", "MALA", "ULA"):
         for iface in ("exp", "legacy"):
@@ -99,7 +99,7 @@ def _thr_cases(tier, seed):
 
 
 def _chain_cases(tier, seed):
-    n = 16 if tier == "quick" else 120
+    n = 24 if tier == "quick" else 200
     out = []
     for name in ("MH", "CWMH", "PCN", "MALA"):
         for iface in ("exp", "legacy"):
@@ -127,13 +127,13 @@ STAT_TARGETS = {"MH": ["s_gauss1", "s_logistic1", "s_trunc1", "s_gauss2", "s_pro
 
 def _stat_cases(tier, seed):
     out = []
-    K = 4000 if tier == "quick" else 25000
+    K = 6000 if tier == "quick" else 40000
     n = 0
     for name in ("MH", "CWMH", "PCN", "MALA"):
         for iface in ("exp", "legacy"):
             tl = STAT_TARGETS[name]
             if tier == "quick":
-                chosen = [(tl[(seed + n + j) % len(tl)], 1 + 2 * ((seed + n + j) % 2), "adapted" if (j == 1 and name != "MALA") else "fresh") for j in range(2)]
+                chosen = [(tl[(seed + n + j) % len(tl)], 1 + 2 * ((seed + n + j) % 2), "adapted" if (j == 1 and name != "MALA") else "fresh") for j in range(3)]
             else:
                 chosen = [(t, k, h) for t in tl for k in (1, 3) for h in (("fresh", "adapted") if name != "MALA" else ("fresh",))
                           if not (h == "adapted" and k == 3)]
